@@ -55,7 +55,7 @@ PLAN = {
     ] + [{"name": f"h_lemma_chunk_{k}", "unwind": 20, "reach": k in (0, 5, 16)} for k in range(17)] + [
     ],
     "native": {"src": "replay.cpp", "c_src": "native_slices.c", "repo_sources": ["src/crypto/siphash.cpp"], "diff_n_quick": 20000, "diff_n_thorough": 2000000, "libs": ["libbitcoin_crypto.a", "libbitcoin_util.a"]},
-    "not_covered": ["SHA-256 / SHA-512 / SHA-1 / SHA3 / RIPEMD-160 compression functions, HMAC, HKDF, Poly1305, AES, the AEAD and its tamper rejection, SIMD back ends: none of these is under contract (hash compression functions against the FIPS text and wide multiplication are outside what the back ends decided here)",
+    "not_covered": ["ChaCha20 (attempted: the one-block equivalence with the RFC 8439 block function went through once by hand for a fixed output word in 5.5 minutes, but with an arbitrary word it exceeded 25 minutes and the multi-block loop-contract version ran out of memory; not claimed)", "SHA-256 / SHA-512 / SHA-1 / SHA3 / RIPEMD-160 compression functions, HMAC, HKDF, Poly1305, AES, the AEAD and its tamper rejection, SIMD back ends: none of these is under contract (hash compression functions against the FIPS text and wide multiplication are outside what the back ends decided here)",
                     "SipHash for message lengths other than 32 and 36 bytes (the two lengths the node hashes: txids / outpoints), SipHasher13UJ"],
     "assumptions": ["uint256::GetUint64(i) is the i-th 64-bit little-endian word of the value (the C rendering reads w[i]); the reference function spec_siphash24 in specs/C49/spec.c is written from the SipHash paper (Aumasson-Bernstein 2012, section 2) and is itself checked natively against the paper's test vector",
                     "std::rotl on uint64_t is ROTL64 (x << n | x >> (64 - n))"],
@@ -63,7 +63,7 @@ PLAN = {
         "category": "proof",
         "text": "partial (SipHash-2-4 only): for every 128-bit key and every input, PresaltedSipHasher(k0,k1)(uint256) equals SipHash-2-4 of the 32 bytes, PresaltedSipHasher(uint256, extra) equals SipHash-2-4 of the 36 bytes (value || LE32 extra), "
                 "CSipHasher with four Write(uint64) calls and with a byte-wise Write(span) of 36 bytes gives the same results (specialised paths = generic path), and writing 16 bytes in one call or split at any point gives the same hash (chunking).",
-        "note": "Not covered: every other primitive in the statement. The reference is a spec function written from the SipHash paper; rounds are structurally unwound (c=2, d=4, at most 5 message words).",
+        "note": "Not covered: every other primitive in the statement (ChaCha20Aligned::Keystream against an RFC 8439 block function was attempted and is NOT claimed: see DESIGN 8.3). The reference is a spec function written from the SipHash paper; rounds are structurally unwound (c=2, d=4, at most 5 message words).",
         "technique": "CBMC function contracts on extracted crypto/siphash.{h,cpp} against a spec function of SipHash-2-4; loops over a constant number of words/bytes unwound with unwinding assertions",
     },
     "trusted_base": ["specs/C49/spec.c"],
